@@ -6,7 +6,7 @@
    handed to the controller) and the recorded state after it, with CIDR arithmetic from module Nets.   *)
 EXTENDS TraceLib, Nets
 
-VARIABLES pools, blocks
+VARIABLES pools, blocks, unsettled
 
 P == INSTANCE Pools WITH CidrOverlap <- Intersects, CidrCovers <- Covers
 
@@ -21,15 +21,21 @@ Same == pools' = Post /\ blocks' = BlocksOf(Cur.blocks)
 
 TInit == l = 1 /\ P!Init
 
-TReset  == IsEvent("reset") /\ pools' = << >> /\ blocks' = {} /\ Cur.pools = << >> /\ Cur.blocks = << >>
+TReset  == IsEvent("reset") /\ pools' = << >> /\ blocks' = {} /\ unsettled' = {} /\ Cur.pools = << >> /\ Cur.blocks = << >>
 TCreate == IsEvent("create") /\ P!Create(Cur.name, Cur.cidr, Cur.disabled, Cur.created) /\ Same
 TSetDis == IsEvent("set_disabled") /\ P!SetDisabled(Cur.name, Cur.v) /\ Same
 TDelete == IsEvent("delete") /\ P!Delete(Cur.name) /\ Same
 TBlkAdd == IsEvent("block_add") /\ P!BlockAppears(Cur.cidr) /\ Same
 TBlkDel == IsEvent("block_del") /\ P!BlockVanishes(Cur.cidr) /\ Same
 \* a Reconcile that returns an error against a healthy API server has not reconciled: not accepted
-TReconcile == IsEvent("reconcile") /\ Cur.err = "" /\ P!Reconcile(Post) /\ blocks = BlocksOf(Cur.blocks)
+\* ... unless the harness made status writes fail in this pass: then the error must be explained by them, and
+\* the pass is judged by ReconcileFailOK
+Failed == IF "failed" \in DOMAIN Cur THEN SeqToSet(Cur.failed) ELSE {}
+TReconcile == /\ IsEvent("reconcile")
+              /\ (Cur.err = "") = (Failed = {})
+              /\ P!ReconcileF(Post, Failed)
+              /\ blocks = BlocksOf(Cur.blocks)
 
 TNext == TReset \/ TCreate \/ TSetDis \/ TDelete \/ TBlkAdd \/ TBlkDel \/ TReconcile
-TSpec == TInit /\ [][TNext]_<<pools, blocks, l>>
+TSpec == TInit /\ [][TNext]_<<pools, blocks, unsettled, l>>
 =============================================================================
